@@ -286,6 +286,19 @@ def synchronize_files(inputpaths, outpath, database=None, tqdm_bar=None, report_
 
     if not ptee: ptee = sys.stdout  # allow to specify an output to log, such as a StringIO as used in unit tests
 
+    # Load the rfigc database once (relative filepath -> recorded hashes), so that any file, at any depth of the tree, can be checked against its own row (calling rfigc on a single file only works for files at the root of the database's folder, since the relative paths of the database cannot be resolved from a lone file, and rfigc then reports no error at all for deeper files)
+    db_rows = {}
+    if database:
+        with _open_csv(database, 'r') as dbf:
+            for row in csv.DictReader(dbf, lineterminator='\n', delimiter='|', quotechar='"'):
+                db_rows[row['path']] = row
+    def db_check(filepath, relfilepath):
+        ''' Check a file against the hashes recorded in the database for this relative filepath. Returns True if they match, False if not, and None if the database does not cover this filepath '''
+        row = db_rows.get(relfilepath, None)
+        if row is None: return None
+        md5hash, sha1hash = rfigc.generate_hashes(filepath)
+        return (md5hash == row['md5'] and sha1hash == row['sha1'])
+
     # Open report file and write header
     if report_file is not None:
         rfile = _open_csv(report_file, 'w')
@@ -347,7 +360,7 @@ def synchronize_files(inputpaths, outpath, database=None, tqdm_bar=None, report_
             correct_file = None
             if database:
                 for id, filepath in enumerate(fileslist):
-                    if rfigc.main("-i \"%s\" -d \"%s\" -m --silent" % (filepath, database)) == 0:
+                    if db_check(filepath, relfilepath):
                         correct_file = filepath
                         correct_id = to_process[id][0]
                         break
@@ -366,15 +379,17 @@ def synchronize_files(inputpaths, outpath, database=None, tqdm_bar=None, report_
 
         # After-merge/move check using rfigc database, if provided
         if database:
-            if rfigc.main("-i \"%s\" -d \"%s\" -m --silent" % (outpathfull, database)) == 1:
+            db_ok = db_check(outpathfull, relfilepath)
+            if db_ok is False:
                 errcode = 1
-                r_row[-3] = "KO"
+                if report_file: r_row[-3] = "KO"
                 if not errmsg: errmsg = ''
                 errmsg += " File could not be totally repaired according to rfigc database."
-            else:
+            elif db_ok:
                 if report_file:
                     r_row[-3] = "OK"
                     if errmsg: errmsg += " But merged file is correct according to rfigc database."
+            elif report_file: r_row[-3] = "-" # this filepath is not in the database: we cannot tell
 
         # Display errors if any
         if errcode:
